@@ -7,6 +7,7 @@ import (
 	"fmt"
 	"net"
 	"os"
+	"sort"
 	"strconv"
 	"strings"
 	"testing"
@@ -49,6 +50,9 @@ type c17cfg struct {
 	// the earlier request travels in its own write and is answered before the hijacking request is sent (otherwise
 	// both are pipelined in one write)
 	priorSep bool
+	// Server.HeaderReceived installs per-request deadlines (RequestConfig{ReadTimeout, WriteTimeout} = c17hdrT) for the
+	// hijacking request while the server-wide timeouts stay 0
+	hdrTO bool
 }
 
 type c17obs struct {
@@ -58,6 +62,7 @@ type c17obs struct {
 	post      []byte // bytes sent after it
 	split     int    // post[:split] travels in the same write as the request
 	late      bool   // the writes after the first are held back until the hijack handler runs
+	afterT    bool   // ... and then for another 2*c17hdrT of virtual time (past any per-request deadline)
 	writes    [][]byte
 	nResp     int
 	ops       []c17op
@@ -139,6 +144,8 @@ var c17palette = [][]byte{
 // chunk lists: 0..3 chunks
 var c17lists = [][]int{{}, {0}, {2}, {0, 1}, {1, 2}, {0, 1, 2}, {2, 1, 0}}
 
+const c17hdrT = 5 * time.Second
+
 const c17hijackGET = "GET /hijack HTTP/1.1\r\nHost: a\r\n\r\n"
 const c17hijackPOST = "POST /hijack HTTP/1.1\r\nHost: a\r\nContent-Length: 3\r\n\r\nabc"
 const c17plainGET = "GET /plain HTTP/1.1\r\nHost: a\r\n\r\n"
@@ -178,7 +185,12 @@ func c17body(cfg c17cfg, lists [][]int) func() {
 		// timing of the writes that follow the first one: 0 = back to back (the scheduler decides how much the server
 		// finds on the wire), 1 = only after the hijack handler has started (exactly `split` bytes can be buffered)
 		if o.split < len(o.post) {
-			o.late = mcrt.Pick(2, "rest-timing") == 1
+			k := 2
+			if cfg.hdrTO {
+				k = 3 // 2 = after the hijack handler has started AND the per-request deadline has passed
+			}
+			t := mcrt.Pick(k, "rest-timing")
+			o.late, o.afterT = t >= 1, t == 2
 		}
 		switch cfg.variant {
 		case 1:
@@ -225,6 +237,14 @@ func c17body(cfg c17cfg, lists [][]int) func() {
 			NoDefaultServerHeader: true,
 			NoDefaultContentType:  true,
 			Logger:                c17nopLogger{},
+		}
+		if cfg.hdrTO {
+			s.HeaderReceived = func(h *RequestHeader) RequestConfig {
+				if string(h.RequestURI()) == "/hijack" {
+					return RequestConfig{ReadTimeout: c17hdrT, WriteTimeout: c17hdrT}
+				}
+				return RequestConfig{}
+			}
 		}
 		if cfg.variant == 3 {
 			s.ReadBufferSize = len(c17hijackGET) + 3
@@ -318,6 +338,10 @@ func c17body(cfg c17cfg, lists [][]int) func() {
 				}
 				if i == 1 && o.late {
 					mcrt.WaitUntil("hijack-handler-started", func() bool { return o.handoffIdx >= 0 })
+					if o.afterT {
+						mcrt.Covered("bytes-sent-after-per-request-deadline")
+						mtime.Sleep(2 * c17hdrT) // PipeConns deadlines run on the same virtual clock
+					}
 				}
 				if _, err := cc.Write(w); err != nil {
 					o.clientErr = "write: " + err.Error()
@@ -443,7 +467,7 @@ func c17check(x *mcrt.Exec) (string, string, string) {
 		bucket = "part"
 	}
 	cls := fmt.Sprintf("post=%d buffered-at-handoff=%s", len(o.post), bucket)
-	desc := fmt.Sprintf("rmu=%v noResponse=%v keep=%v variant=%d earlier-request=%s post=%s split=%d rest-held-back=%v", o.cfg.rmu, o.cfg.noResp, o.cfg.keep, o.cfg.variant, c17priorName(o.cfg), q(o.post), o.split, o.late)
+	desc := fmt.Sprintf("rmu=%v noResponse=%v keep=%v variant=%d earlier-request=%s post=%s split=%d rest-held-back=%v rest-after-deadline=%v header-received-timeouts=%v", o.cfg.rmu, o.cfg.noResp, o.cfg.keep, o.cfg.variant, c17priorName(o.cfg), q(o.post), o.split, o.late, o.afterT, o.cfg.hdrTO)
 	if o.handoffIdx < 0 {
 		if dead && !o.serveReturned {
 			return cls, "stuck-before-hijack", desc + ": no thread can make progress and ServeConn has not returned"
@@ -520,6 +544,8 @@ func c17check(x *mcrt.Exec) (string, string, string) {
 		switch {
 		case o.bufferedAtHO > 0 && !bytes.HasPrefix(o.hjRead, o.post[:c17min(c17min(o.bufferedAtHO, o.hjWant), len(o.post))]):
 			sig = "hijack-handler-lost-bytes-buffered-with-request"
+		case bytes.HasPrefix(o.post[:o.hjWant], o.hjRead) && strings.Contains(o.hjErr, "timeout"):
+			sig = "hijack-handler-read-times-out-on-deadline-left-armed"
 		case bytes.HasPrefix(o.post[:o.hjWant], o.hjRead):
 			sig = "hijack-handler-bytes-truncated"
 		}
@@ -545,6 +571,8 @@ func c17check(x *mcrt.Exec) (string, string, string) {
 			sig := "kept-conn-bytes-differ-after-handler-return"
 			if len(o.lateErr) > 6 && o.lateErr[:6] == "panic:" {
 				sig = "kept-conn-read-panics-after-handler-return"
+			} else if strings.Contains(o.lateErr, "timeout") {
+				sig = "kept-conn-read-times-out-on-deadline-left-armed"
 			}
 			return cls, sig, fmt.Sprintf("%s: hijack handler read %s and returned; reading the remaining %s through the kept connection gave %s err=%q (%d bytes had been taken off the wire by the server before the hand-off)", desc, q(o.hjRead), q(o.post[o.hjWant:]), q(o.lateRead), o.lateErr, o.bufferedAtHO)
 		}
@@ -569,7 +597,7 @@ func TestVerif_C17(t *testing.T) {
 	r.Rule("real Server.ServeConn on one end of fasthttputil.PipeConns, client thread writes a hijacking request (GET / POST with body / read buffer barely larger than the request), optionally after an earlier ordinary request on the same connection " +
 		"that did {nothing, HijackSetNoResponse(true) without Hijack, HijackSetNoResponse(false)} and was {pipelined in the same write, answered first}, " +
 		"followed by 0-3 chunks of arbitrary bytes (request look-alike, NUL/0xff/CRLFCRLF, single byte), the first `split` bytes in the same write as the request (split in {0,1,mid,end of chunk 1,+1,all}); " +
-		"x ReduceMemoryUsage x HijackSetNoResponse x KeepHijackedConns; every schedule up to the preemption bound for every data case; server-side conn wrapped to log each Read/Write/Close with the calling thread. " +
+		"x ReduceMemoryUsage x HijackSetNoResponse x KeepHijackedConns x {HeaderReceived unset, HeaderReceived installs ReadTimeout/WriteTimeout 5s for the hijacking request with part of the stream sent 10 virtual seconds after the hand-off}; every schedule up to the preemption bound for every data case; server-side conn wrapped to log each Read/Write/Close with the calling thread. " +
 		"Oracle: bytes written before the hijack handler's first statement are exactly the complete response(s) (nothing if suppressed); after that no Read/Write by server code; handler reads exactly the bytes sent after the request " +
 		"(with KeepHijackedConns: first half in the handler, rest through the kept conn after return); conn closed by the server after return iff KeepHijackedConns is off; client sees responses + owners' writes. " +
 		"Non-trivial: executions with >=1 deviation; anti-vacuity tag hijacked-with-buffered-bytes")
@@ -582,23 +610,29 @@ func TestVerif_C17(t *testing.T) {
 		prior    int
 		priorSep bool
 		lists    [][]int
+		hdrTO    bool
 	}
 	short := [][]int{{}, {0}, {0, 1}, {2, 1, 0}}
 	fams := []fam{
-		{"get", 0, 0, false, c17lists},
-		{"post-body", 1, 0, false, c17lists},
-		{"pipelined-behind-plain", 0, 1, false, c17lists},
-		{"tight-readbuf", 3, 0, false, c17lists},
+		{"get", 0, 0, false, c17lists, false},
+		{"post-body", 1, 0, false, c17lists, false},
+		{"pipelined-behind-plain", 0, 1, false, c17lists, false},
+		{"tight-readbuf", 3, 0, false, c17lists, false},
 		// what the earlier request on the connection did with the hijack settings of its ctx
-		{"after-plain", 0, 1, true, short},
-		{"pipelined-behind-noresponse-true", 0, 2, false, short},
-		{"after-noresponse-true", 0, 2, true, short},
-		{"pipelined-behind-noresponse-false", 0, 3, false, short},
-		{"after-noresponse-false", 0, 3, true, short},
+		{"after-plain", 0, 1, true, short, false},
+		{"pipelined-behind-noresponse-true", 0, 2, false, short, false},
+		{"after-noresponse-true", 0, 2, true, short, false},
+		{"pipelined-behind-noresponse-false", 0, 3, false, short, false},
+		{"after-noresponse-false", 0, 3, true, short, false},
+		// per-request deadlines from HeaderReceived, part of the stream sent after they would expire
+		{"get-headerreceived-timeouts", 0, 0, false, short, true},
+		{"post-body-headerreceived-timeouts", 1, 0, false, [][]int{{0}, {2, 1}}, true},
 	}
+	// cheap families first: under a wall-clock cap the workers then starve the expensive ones, not the narrow ones
+	sort.SliceStable(fams, func(i, j int) bool { return len(fams[i].lists) < len(fams[j].lists) })
 	for _, f := range fams {
 		for m := 0; m < 8; m++ {
-			cfg := c17cfg{rmu: m&1 != 0, noResp: m&2 != 0, keep: m&4 != 0, variant: f.variant, prior: f.prior, priorSep: f.priorSep}
+			cfg := c17cfg{rmu: m&1 != 0, noResp: m&2 != 0, keep: m&4 != 0, variant: f.variant, prior: f.prior, priorSep: f.priorSep, hdrTO: f.hdrTO}
 			name := fmt.Sprintf("%s/rmu=%v/noresp=%v/keep=%v", f.name, cfg.rmu, cfg.noResp, cfg.keep)
 			if flt := os.Getenv("VERIF_SCENARIO"); flt != "" && !strings.Contains(name, flt) {
 				continue
